@@ -110,8 +110,8 @@ def min_classes(tier):
 def oracle(line, impl_line):
     mode, a = parse_case(line)
     o = parse_out(impl_line)
-    if o is None or o == [[888888]]:
-        return "implementation crashed or panicked"
+    if o is None or (o == [[18446744073710440504]] and not (mode == "bufsize" and eff(a[0][0]) == 18446744073710440504)):
+        return "implementation crashed or panicked"          # 18446744073710440504 is the harness' panic marker - and a legitimate buffer size
     if mode == "bufsize":
         b = a[0][0]
         e = o[0][0]
